@@ -1,4 +1,146 @@
+/-
+  C13 — an accepted input is exactly one CBOR item; byte and Value APIs agree.
+  Property statements only (helper lemmas: CosetProofs/Cbor/*).
+-/
+import CosetProofs.Cbor.ParseAppend
 import CosetModel.Api
 namespace Coset.Props.C13
+open Coset Coset.Cbor
+
+/-- the parser consumed exactly the accepted input. -/
+theorem readToValue_ok_iff (bs : Bytes) (v : Value) : readToValue bs = .ok v ↔ fromReader bs = .ok (v, []) := by
+  unfold readToValue
+  cases h : fromReader bs with
+  | ok p =>
+    obtain ⟨w, r⟩ := p
+    cases r with
+    | nil => simp
+    | cons a t => simp
+  | err => simp
+  | oof => simp
+
+/-- appending any non-empty suffix to an accepted input: `ExtraneousData`, before any conversion is attempted. -/
+theorem suffix_value (bs s : Bytes) (v : Value) (h : readToValue bs = .ok v) (hs : s ≠ []) :
+    readToValue (bs ++ s) = .err .extraneousData := by
+  rw [readToValue_ok_iff] at h
+  have := fromReader_append bs s v [] h
+  unfold readToValue
+  rw [this]
+  cases s with
+  | nil => exact absurd rfl hs
+  | cons a t => simp
+
+/-- C13 (suffix), for every type's `from_slice` (`conv` is that type's `from_cbor_value`). -/
+theorem suffix {α : Type} (conv : Value → Res α) (bs s : Bytes) (x : α)
+    (h : fromSlice conv bs = .ok x) (hs : s ≠ []) : fromSlice conv (bs ++ s) = .err .extraneousData := by
+  unfold fromSlice at h ⊢
+  cases hr : readToValue bs with
+  | ok v => rw [suffix_value bs s v hr hs]
+  | err e => simp [hr] at h
+  | panic p => simp [hr] at h
+
+theorem suffix_of_isOk {α : Type} (conv : Value → Res α) (bs s : Bytes)
+    (h : (fromSlice conv bs).isOk = true) (hs : s ≠ []) : fromSlice conv (bs ++ s) = .err .extraneousData := by
+  cases hx : fromSlice conv bs with
+  | ok x => exact suffix conv bs s x hx hs
+  | err e => simp [hx, Res.isOk] at h
+  | panic p => simp [hx, Res.isOk] at h
+
+/-- the same through `from_tagged_slice`. -/
+theorem suffix_tagged {α : Type} (tag : Nat) (conv : Value → Res α) (bs s : Bytes) (x : α)
+    (h : fromTaggedSlice tag conv bs = .ok x) (hs : s ≠ []) : fromTaggedSlice tag conv (bs ++ s) = .err .extraneousData := by
+  unfold fromTaggedSlice at h ⊢
+  cases hr : readToValue bs with
+  | ok v => rw [suffix_value bs s v hr hs]
+  | err e => simp [hr] at h
+  | panic p => simp [hr] at h
+
+/-- no proper prefix of an accepted input parses as a complete item. -/
+theorem prefix_value (bs : Bytes) (v : Value) (k : Nat) (h : readToValue bs = .ok v) (hk : k < bs.length) :
+    ∀ w, readToValue (bs.take k) ≠ .ok w := by
+  intro w hw
+  rw [readToValue_ok_iff] at h hw
+  have := fromReader_append (bs.take k) (bs.drop k) w [] hw
+  rw [List.take_append_drop] at this
+  rw [h] at this
+  simp at this
+  omega
+
+/-- C13 (prefix), for every type's `from_slice`: a proper prefix of an accepted input is never accepted. -/
+theorem prefix_rejected {α : Type} (conv : Value → Res α) (bs : Bytes) (x : α) (k : Nat)
+    (h : fromSlice conv bs = .ok x) (hk : k < bs.length) : ∀ y, fromSlice conv (bs.take k) ≠ .ok y := by
+  intro y hy
+  unfold fromSlice at h hy
+  cases hr : readToValue bs with
+  | ok v =>
+    cases hr2 : readToValue (bs.take k) with
+    | ok w => exact prefix_value bs v k hr hk w hr2
+    | err e => simp [hr2] at hy
+    | panic p => simp [hr2] at hy
+  | err e => simp [hr] at h
+  | panic p => simp [hr] at h
+
+theorem prefix_rejected_tagged {α : Type} (tag : Nat) (conv : Value → Res α) (bs : Bytes) (x : α) (k : Nat)
+    (h : fromTaggedSlice tag conv bs = .ok x) (hk : k < bs.length) : ∀ y, fromTaggedSlice tag conv (bs.take k) ≠ .ok y := by
+  intro y hy
+  unfold fromTaggedSlice at h hy
+  cases hr : readToValue bs with
+  | ok v =>
+    cases hr2 : readToValue (bs.take k) with
+    | ok w => exact prefix_value bs v k hr hk w hr2
+    | err e => simp [hr2] at hy
+    | panic p => simp [hr2] at hy
+  | err e => simp [hr] at h
+  | panic p => simp [hr] at h
+
+/-- layering: byte-level decoding is CBOR-parsing then converting; byte-level encoding is converting then serialising. -/
+theorem layering_decode {α : Type} (conv : Value → Res α) (bs : Bytes) :
+    fromSlice conv bs = (readToValue bs >>= conv) := by
+  unfold fromSlice; cases readToValue bs <;> rfl
+
+theorem layering_encode {α : Type} (toV : α → Res Value) (x : α) :
+    toVec toV x = (toV x >>= fun v => .ok (enc v)) := by
+  unfold toVec; cases toV x <;> rfl
+
+theorem layering_decode_tagged {α : Type} (tag : Nat) (conv : Value → Res α) (bs : Bytes) :
+    fromTaggedSlice tag conv bs =
+      (readToValue bs >>= fun v => tryAsTag v >>= fun p => if p.1 != tag then .err .unexpectedItem else conv p.2) := by
+  unfold fromTaggedSlice
+  cases readToValue bs with
+  | ok v => simp only [Res.bind_ok]; cases tryAsTag v <;> rfl
+  | err e => rfl
+  | panic p => rfl
+
+theorem layering_encode_tagged {α : Type} (tag : Nat) (toV : α → Res Value) (x : α) :
+    toTaggedVec tag toV x = (toV x >>= fun v => .ok (enc (.tag tag v))) := by
+  unfold toTaggedVec; cases toV x <;> rfl
+
+/-- instances for the message types (the statements above hold for every `conv`; these pin the ones the crate has). -/
+theorem suffix_CoseSign1 (bs s : Bytes) (x : CoseSign1) (h : fromSlice CoseSign1.fromValue bs = .ok x) (hs : s ≠ []) :
+    fromSlice CoseSign1.fromValue (bs ++ s) = .err .extraneousData := suffix _ bs s x h hs
+theorem suffix_Header (bs s : Bytes) (x : Header) (h : fromSlice hdrFromValue bs = .ok x) (hs : s ≠ []) :
+    fromSlice hdrFromValue (bs ++ s) = .err .extraneousData := suffix _ bs s x h hs
+theorem suffix_tagged_CoseSign1 (bs s : Bytes) (x : CoseSign1) (h : fromTaggedSlice Gen.TAG_CoseSign1 CoseSign1.fromValue bs = .ok x)
+    (hs : s ≠ []) : fromTaggedSlice Gen.TAG_CoseSign1 CoseSign1.fromValue (bs ++ s) = .err .extraneousData :=
+  suffix_tagged _ _ bs s x h hs
+
+/-- non-vacuity: an accepted COSE_Sign1 (`84 40 a0 f6 40`), a one-byte suffix, and each proper prefix. -/
+example : (fromSlice CoseSign1.fromValue [0x84, 0x40, 0xa0, 0xf6, 0x40]).isOk = true := by decide +kernel
+example : fromSlice CoseSign1.fromValue ([0x84, 0x40, 0xa0, 0xf6, 0x40] ++ [0x00]) = .err .extraneousData :=
+  suffix_of_isOk _ _ [0x00] (by decide +kernel) (by simp)
+example : (fromSlice CoseSign1.fromValue ([0x84, 0x40, 0xa0, 0xf6, 0x40].take 4)).isOk = false := by decide +kernel
+
+#print axioms suffix
+#print axioms suffix_tagged
+#print axioms suffix_of_isOk
+#print axioms prefix_rejected
+#print axioms prefix_rejected_tagged
+#print axioms layering_decode
+#print axioms layering_encode
+#print axioms layering_decode_tagged
+#print axioms layering_encode_tagged
+#print axioms suffix_CoseSign1
+#print axioms suffix_Header
+#print axioms suffix_tagged_CoseSign1
 
 end Coset.Props.C13
